@@ -8,6 +8,7 @@ import (
 	"fmt"
 	"os"
 	"os/exec"
+	"path/filepath"
 	"regexp"
 	"strings"
 )
@@ -76,5 +77,63 @@ func init() {
 			os.Exit(1)
 		}
 		fmt.Println("obligation discharged on the current tree")
+	}
+}
+
+// Replay of failed parser obligations on the real code: the harness
+// /verif/harness/parser_replay_test.go feeds truncated and mutated encodings of the package
+// type to the real parser; a concrete failing input found there is attached to the replay file.
+func init() {
+	reParser := regexp.MustCompile(`^\(\*tds\.(\w+)\)\.ReadFrom$`)
+	tryReplay = func(rep *Report, o *Obligation, content map[string]interface{}) bool {
+		m := reParser.FindStringSubmatch(o.Fn)
+		if m == nil || rep.replayTried[m[1]] {
+			if m != nil && len(rep.replayFound[m[1]]) > 0 {
+				content["failing_inputs"] = rep.replayFound[m[1]]
+				content["replay"] = rep.replayCmd[m[1]]
+				return true
+			}
+			return false
+		}
+		if rep.replayTried == nil {
+			rep.replayTried, rep.replayFound, rep.replayCmd = map[string]bool{}, map[string][]string{}, map[string]string{}
+		}
+		rep.replayTried[m[1]] = true
+		tmp, err := os.MkdirTemp("", "replay")
+		if err != nil {
+			return false
+		}
+		defer os.RemoveAll(tmp)
+		src := filepath.Join(verifDir, "harness", "parser_replay_test.go")
+		dst := filepath.Join("/repo", "tds", "zz_verif_parser_replay_test.go")
+		data, _ := json.Marshal(map[string]map[string]string{"Replace": {dst: src}})
+		ovf := filepath.Join(tmp, "ov.json")
+		os.WriteFile(ovf, data, 0o644)
+		cmd := exec.Command("go", "test", "-overlay", ovf, "-vet=off", "-count=1", "-timeout", "120s", "-run", "TestReplayParsers", "-v", ".")
+		cmd.Dir = filepath.Join("/repo", "tds")
+		cmd.Env = append(os.Environ(), "GOFLAGS=-mod=mod", "GOPROXY=off", "GOSUMDB=off", "GOTOOLCHAIN=local", "REPLAY_TYPE="+m[1])
+		out, _ := cmd.CombinedOutput()
+		var res struct {
+			Failures []string `json:"failures"`
+		}
+		for _, l := range strings.Split(string(out), "\n") {
+			if i := strings.Index(l, "REPLAY "); i >= 0 {
+				json.Unmarshal([]byte(l[i+7:]), &res)
+			}
+		}
+		var found []string
+		for _, f := range res.Failures {
+			if !strings.HasPrefix(f, "alloc-before-available") {
+				found = append(found, f)
+			}
+		}
+		if len(found) == 0 {
+			return false
+		}
+		rep.replayFound[m[1]] = found
+		rep.replayCmd[m[1]] = fmt.Sprintf("REPLAY_TYPE=%s /verif/tools/overlay_test.sh /repo tds /verif/harness/parser_replay_test.go -run TestReplayParsers -v", m[1])
+		content["failing_inputs"] = found
+		content["replay"] = rep.replayCmd[m[1]]
+		return true
 	}
 }
